@@ -330,9 +330,7 @@ def run(ctx):
     # ---------------------------------------------------------------- R6 conditions, sizes and counts given as expressions are exported as their text: operator spellings and rendering (shared with C11.R3/R4)
     from ..core import Ctx as _Ctx
     from . import C11
-    sub = _Ctx("C11", ctx.tier, ctx.root, model=ctx.model)
-    sub._summ = summariser(ctx)
-    C11.run(sub)
+    sub = shared_run(ctx, C11, prop="C11")
     for e in sub.errors:
         ctx.error("shared C11 rules: " + e)
     for o in sub.obligations:
